@@ -1357,6 +1357,42 @@ def monotone_counters(prog):
     for f in prog.functions.values():
         if f.nocfg:
             continue
+        # locals of this function that are plain copies of a global (one definition: `x = g`)
+        copies = {}
+        for b, i, n in f.walk_all():
+            if n.get("k") == "decl":
+                for v in n["vars"]:
+                    if v.get("init") is not None:
+                        copies.setdefault(v["id"], []).append(v["init"])
+            elif n.get("k") == "bin" and n.get("op", "").endswith("=") and n["op"] not in ("==", "!=", "<=", ">="):
+                l = strip(n["a"], lvalue_to_rvalue=False)
+                if l.get("k") == "ref" and l["d"].get("dk") in ("local", "param") and "id" in l["d"]:
+                    copies.setdefault(l["d"]["id"], []).append(n["b"] if n["op"] == "=" else None)
+            elif n.get("k") == "un" and n.get("op") in ("++", "--", "&"):
+                l = strip(n["e"], lvalue_to_rvalue=False)
+                if l.get("k") == "ref" and "id" in l["d"]:
+                    copies.setdefault(l["d"]["id"], []).append(None)
+
+        def at_least(e, gname):
+            """e is the global itself, a copy of it, or one of those plus a non-negative constant"""
+            e = strip(e, all_casts=True)
+            if e.get("k") == "bin" and e.get("op") == "+":
+                c = cval(e["b"])
+                if c is not None and c >= 0:
+                    return at_least(e["a"], gname)
+                c = cval(e["a"])
+                if c is not None and c >= 0:
+                    return at_least(e["b"], gname)
+                return False
+            if e.get("k") == "ref" and e["d"].get("dk") == "global":
+                return e["d"]["n"] == gname
+            if e.get("k") == "ref" and "id" in e["d"]:
+                src = copies.get(e["d"]["id"], [])
+                if len(src) == 1 and src[0] is not None:
+                    s0 = strip(src[0], all_casts=True)
+                    return s0.get("k") == "ref" and s0["d"].get("dk") == "global" and s0["d"]["n"] == gname
+            return False
+
         for b, i, n in f.walk_all():
             k = n.get("k")
             tgt = None
@@ -1366,7 +1402,7 @@ def monotone_counters(prog):
                 if l.get("k") == "ref" and l["d"].get("dk") == "global":
                     tgt = l["d"]["n"]
                     c = cval(n["b"])
-                    ok = (n["op"] in ("=", "+=") and c is not None and c >= 0)
+                    ok = (n["op"] in ("=", "+=") and c is not None and c >= 0) or (n["op"] == "=" and at_least(n["b"], tgt))
             elif k == "un" and n.get("op") in ("++", "--", "&"):
                 l = strip(n["e"], lvalue_to_rvalue=False)
                 if l.get("k") == "ref" and l["d"].get("dk") == "global":
